@@ -22,6 +22,9 @@ type structCase struct {
 	// NoRootPrev: the generator left out "PrevLabel on the root name" because the known finding
 	// prevlabel-root is listed and still reproduces (only ever set for the root name)
 	NoRootPrev bool `json:",omitempty"`
+	// NoCanonDDD: likewise for the known finding canonical-ddd-letter (only ever set for a name that
+	// holds an upper-case letter written as \DDD): that unit may come back from CanonicalName unchanged
+	NoCanonDDD bool `json:",omitempty"`
 }
 
 func (c structCase) text() string {
@@ -163,15 +166,39 @@ func checkStruct(c structCase) error {
 			return nil
 		}
 	}
-	if got := dns.CanonicalName(s); got != lowerASCII(wantFq) {
-		return pbt.Errf("CanonicalName(%q)=%q want %q", s, got, lowerASCII(wantFq))
+	// (canonical_test.go: unit by unit - every letter octet lower-cased however it is written,
+	// nothing else changed)
+	if hasDDDUpper(s) {
+		pbt.Class("upper-letter-as-ddd")
+		pbt.Sample("upper-letter-as-ddd", s)
 	}
-	// the canonical name denotes the same wire labels up to case
+	if err := checkCanonical(s, wantFq, dns.CanonicalName(s), c.NoCanonDDD); err != nil {
+		return err
+	}
+	// the canonical name denotes the wire labels of the name, lower-cased, and is fully qualified
 	cn, cfq, err := wm.UnescName(dns.CanonicalName(s))
-	if err != nil || !cfq || !cn.Equal(lowerEscAware(c.Spelled)) {
+	if err != nil || !cfq || !cn.Equal(lowerWire(wire)) && !(c.NoCanonDDD && cn.Equal(lowerEscAware(c.Spelled))) {
 		return pbt.Errf("CanonicalName(%q)=%q denotes %q, want lower-cased %q", s, dns.CanonicalName(s), cn, wire)
 	}
 	return nil
+}
+
+func lowerWire(n wm.Name) wm.Name {
+	var out wm.Name
+	for _, l := range n {
+		out = append(out, []byte(lowerASCII(string(l))))
+	}
+	return out
+}
+
+// noteCanonDDD: while the known finding canonical-ddd-letter is listed and reproduces, a name that
+// holds an upper-case letter written as \DDD is given to CanonicalName with that one unit allowed
+// to come back unchanged (everything else is still asserted)
+func noteCanonDDD(c *structCase) {
+	if hasDDDUpper(c.text()) && pbt.Known(findCanonDDD) {
+		pbt.Excluded(findCanonDDD)
+		c.NoCanonDDD = true
+	}
 }
 
 // lowerEscAware is what lower-casing the *text* denotes: letters written raw or as \c are
@@ -224,6 +251,7 @@ func genStruct(t *rapid.T) structCase {
 		pbt.Excluded(findPrevRoot)
 		c.NoRootPrev = true
 	}
+	noteCanonDDD(&c)
 	return c
 }
 
@@ -240,6 +268,7 @@ func eachSmallName(maxUnits int, emit func(structCase)) {
 			pbt.Excluded(findPrevRoot)
 			c.NoRootPrev = true
 		}
+		noteCanonDDD(&c)
 		emit(c)
 	})
 }
@@ -408,6 +437,13 @@ func checkPair(c pairCase) error {
 	if want >= 1 && differ {
 		pbt.Sample("related", sa+" | "+sb)
 	}
+	if labelAffix(a, b, want) {
+		pbt.Class("label-affix")
+		pbt.Sample("label-affix", sa+" | "+sb)
+	}
+	if !strings.Contains(sa+sb, `\`) {
+		pbt.Class("no-escape")
+	}
 	if c.Spelled {
 		if strings.Contains(sa+sb, `\`) {
 			pbt.Class("spelled-with-escape")
@@ -491,14 +527,19 @@ func genPair(t *rapid.T) pairCase {
 		}
 		return pairCase{A: a, B: b, FQ: rapid.Bool().Draw(t, "fq"), Raw: true}
 	}
+	if rapid.IntRange(0, 3).Draw(t, "plain") == 0 {
+		a = plainName(t, 4) // letters and digits only: nothing to escape, every dot a separator
+	}
 	var b wm.Name
-	switch rapid.IntRange(0, 4).Draw(t, "rel") {
+	switch rapid.IntRange(0, 5).Draw(t, "rel") {
 	case 0:
 		b = gen.Name(t, o)
 	case 1:
 		b = a.Clone()
 	case 2:
 		b = gen.FlipCase(t, a)
+	case 3:
+		b = affixPair(t, a)
 	default:
 		b = gen.Name(t, gen.NameOpts{MaxLabs: 3, MaxLabel: 6})
 		cut := rapid.IntRange(0, len(a)).Draw(t, "cut")
@@ -509,6 +550,79 @@ func genPair(t *rapid.T) pairCase {
 		b = append(b, tail.Clone()...)
 	}
 	return pairCase{A: a, B: b, FQ: rapid.Bool().Draw(t, "fq")}
+}
+
+// plainName draws 1..maxLabs labels of 1..4 letters and digits
+func plainName(t *rapid.T, maxLabs int) wm.Name {
+	const al = "abAB1-xyz0"
+	var n wm.Name
+	for i, k := 0, rapid.IntRange(1, maxLabs).Draw(t, "plabs"); i < k; i++ {
+		l := make([]byte, rapid.IntRange(1, 4).Draw(t, "plen"))
+		for j := range l {
+			l[j] = al[rapid.IntRange(0, len(al)-1).Draw(t, "poct")]
+		}
+		n = append(n, l)
+	}
+	return n
+}
+
+// affixPair: the second name shares the last labels of a, and its next label is NOT the label of a
+// at that place but a piece of it or an extension of it - "ample.com" / "exam.com" / "badexample.com" /
+// "examples.com" against "example.com": the texts of the two names then agree (or nearly agree)
+// beyond the last shared label boundary although the labels differ. In front of that label there is
+// nothing, the labels a has there, or other labels. The shared-suffix count is exactly the number of
+// labels behind it; the oracle (commonSuffix on the wire labels) does not know how the pair was made.
+func affixPair(t *rapid.T, a wm.Name) wm.Name {
+	if len(a) == 0 {
+		return wm.Name{}
+	}
+	at := rapid.IntRange(0, len(a)-1).Draw(t, "affixat")
+	l := a[at]
+	var v []byte
+	extra := func() []byte {
+		e := make([]byte, rapid.IntRange(1, 2).Draw(t, "nextra"))
+		for i := range e {
+			e[i] = "abAB1-."[rapid.IntRange(0, 6).Draw(t, "extra")]
+		}
+		return e
+	}
+	switch k := rapid.IntRange(0, 3).Draw(t, "affix"); {
+	case k == 0 && len(l) > 1: // a proper suffix of the label
+		v = append(v, l[rapid.IntRange(1, len(l)-1).Draw(t, "from"):]...)
+	case k == 1 && len(l) > 1: // a proper prefix
+		v = append(v, l[:rapid.IntRange(1, len(l)-1).Draw(t, "to")]...)
+	case k == 2 || k == 0: // extended on the left
+		v = append(extra(), l...)
+	default: // extended on the right
+		v = append(append(v, l...), extra()...)
+	}
+	var b wm.Name
+	switch rapid.IntRange(0, 2).Draw(t, "front") {
+	case 1:
+		b = append(b, wm.Name(a[:at]).Clone()...)
+	case 2:
+		b = gen.Name(t, gen.NameOpts{MaxLabs: 2, MaxLabel: 4})
+	}
+	b = append(b, v)
+	b = append(b, wm.Name(a[at+1:]).Clone()...)
+	if rapid.Bool().Draw(t, "flip") {
+		b = gen.FlipCase(t, b)
+	}
+	return b // either name may be the first argument: checkPair asks both ways round
+}
+
+// labelAffix: the first labels that differ (counted from the right) are a proper piece of one
+// another - one is a suffix or a prefix of the other under ASCII case folding
+func labelAffix(a, b wm.Name, shared int) bool {
+	if shared >= len(a) || shared >= len(b) {
+		return false
+	}
+	x := string(wm.LowerBytes(a[len(a)-1-shared]))
+	y := string(wm.LowerBytes(b[len(b)-1-shared]))
+	if len(x) > len(y) {
+		x, y = y, x
+	}
+	return len(x) > 0 && len(x) < len(y) && (strings.HasSuffix(y, x) || strings.HasPrefix(y, x))
 }
 
 var pairUnits = [][]byte{{'a'}, {'A'}, {'b'}, {'.'}, {'\\'}, {0}}
